@@ -49,7 +49,7 @@ CHECKS = {
              text='HLL.tla models warm-up set, conversion and register phase; ExactWhileWarm, ConversionLosesNothing and the action property DuplicateBlind are model-checked over every insertion sequence of a bounded space; each sequence is replayed on the real class (p=3, capacity 3); full-scale runs of the unmodified class crossing 2^18 in several orders and up to 2^20/2^21 distinct values are recorded add by add near the boundary and validated by TraceHLL.tla (exactness, 2% bound, duplicate-blindness).',
              note='the 2% clause is decided on the seeded full-scale runs; the linear-counting table of the scaled model is computed by the harness'),
  'C15': dict(sec='3/C15', tech='TLC on CMS.tla (all hash functions, all bounded streams; bounded counter) + replay of every counter stream + TraceCMS.tla on recorded real count-min streams',
-             text='CMS.tla chooses an arbitrary hash function at Init and explores every update stream: NeverUnder, NeverOverTotal, RowSumsAreTotal; the bounded counter machine is model-checked and every stream replayed on the real class; real CountMinSketch objects of many shapes and seeds are driven by seeded streams and each update (locations under the real hash, all query results, row sums) is validated by TraceCMS.tla against the model under a function Hash.',
+             text='CMS.tla chooses an arbitrary hash function at Init and explores every update stream of single updates and whole-list BatchUpdate calls (deviation BatchCellOnce as control): NeverUnder, NeverOverTotal, RowSumsAreTotal; the bounded counter machine is model-checked and every stream replayed on the real class; real CountMinSketch objects of many shapes and seeds are driven by seeded streams (add, batch_add of single items and of whole lists with repeated and colliding items) and each call (all query results, row sums) is validated by TraceCMS.tla against the ghosts truth/total.',
              note='exhaustive for D<=3, W<=3, <=3 items, streams <=5; real streams seeded (40 quick / 400 thorough)'),
 
  'C16': dict(sec='3/C16', tech='TLC enumeration of Parsers.tla (character-level CSV/TSV/VW render+parse machines, namespace maps) + every rendered line through the real generic_line_parser / parse_namespace; wrong-arity lines through the real streaming loop',
@@ -72,7 +72,7 @@ CHECKS = {
              note='trace validation only (no exhaustive model); base names without "-"; 80 (quick) / 1500 (thorough) tables'),
 
  'C19': dict(sec='3/C19', tech='TLC on Generators.tla part data (generate_data cursor machine over every structure) + replay through the real generate_data with distinguishable domains + TraceGenerators.tla on the recorded data sets (domain, representation, shape, seed)',
-             text='The cursor machine FillGap/PlaceDeclared/FillRest is model-checked (ShapeExact, DeclaredAtDeclaredIndex, OthersDefault) for every structure of a bounded space; each structure is replayed through the real generator with pairwise distinguishable domains so that column value sets identify the placement; recorded data sets incl. the n_samples = |domain| boundary and random-draw domains are validated by TraceGenerators.tla; seed determinism within and across processes; naive generator and data_generator task.',
+             text='The cursor machine FillGap/PlaceDeclared/FillRest is model-checked (ShapeExact, DeclaredAtDeclaredIndex, OthersDefault) for every structure of a bounded space; each structure is replayed through the real generator with pairwise distinguishable domains so that column value sets identify the placement; recorded data sets incl. the n_samples = |domain| boundary and random-draw domains are validated by TraceGenerators.tla; seed determinism within and across processes, and over every session of GeneratorSession.tla (several generate_data calls on one instance with derived-structure calls and foreign RNG use in between, deviation ReseedOnlyOnChange as control) replayed on a real instance; naive generator and data_generator task.',
              note='structures: <=3 entries over <=5 columns, strictly increasing indices (precondition)'),
  'C20': dict(sec='3/C20', tech='TLC on Generators.tla part info (bookkeeping over every call sequence) + replay on the real generator + TraceGenerators.tla on measured correlation / labels / noise / down-sampling results',
              text='InfoListsExactlyAddedColumns is model-checked over every sequence of correlate/duplicate/combine calls; each sequence is replayed on the real class comparing appended columns, self-description records, copies, combination functions and Pearson correlation; seeded label, noise, missing-value and down-sampling calls are measured and validated by TraceGenerators.tla (monotone step labels, class proportions when tie-free, noise budget and domain, exact marker counts, input untouched, per-class row counts).',
